@@ -354,7 +354,7 @@ theorem eval_second {cfg : Cfg} (hst : cfg.style ≠ .core) :
         exact ⟨hl.env_len, hl.res_sub, hl.cursors_eq, hl.kids_eq⟩
     | param n shape init =>
       simp only [eval] at h ⊢
-      cases hp : scopeParam π n shape init l.res s with
+      cases hp : scopeParam π n (resolveDims shape) init l.res s with
       | mk res s2 =>
         rw [hp] at h
         cases res with
@@ -363,8 +363,8 @@ theorem eval_second {cfg : Cfg} (hst : cfg.style ≠ .core) :
           obtain ⟨v, r⟩ := vr
           simp only [Prod.mk.injEq, Except.ok.injEq] at h
           obtain ⟨rfl, rfl⟩ := h
-          obtain ⟨h1, h2⟩ := scopeParam_second (shape := shape) (init := init) (r' := l'.res) (hk _ (scopeParam_key hp))
-          cases hp' : scopeParam π n shape init l'.res t with
+          obtain ⟨h1, h2⟩ := scopeParam_second (shape := resolveDims shape) (init := init) (r' := l'.res) (hk _ (scopeParam_key hp))
+          cases hp' : scopeParam π n (resolveDims shape) init l'.res t with
           | mk res' t2 =>
             rw [hp'] at h1 h2
             simp only at h1
@@ -435,7 +435,7 @@ theorem eval_second {cfg : Cfg} (hst : cfg.style ≠ .core) :
          simp only [Except.ok.injEq] at hh; subst hh
          exact ⟨by simp [push, hl.env_len, hl1.1], by rw [hl1.2.1]; exact hl.res_sub,
                 by rw [hl1.2.2.1]; exact hl.cursors_eq, by rw [hl1.2.2.2]; exact hl.kids_eq⟩)
-    | put col n e =>
+    | put col rel n e =>
       simp only [eval] at h ⊢
       cases he : evalE x l.env e with
       | error err => simp [he] at h
@@ -443,7 +443,7 @@ theorem eval_second {cfg : Cfg} (hst : cfg.style ≠ .core) :
         simp only [he] at h
         obtain ⟨v', hv'⟩ := evalE_ok_of_len (x' := x') hl.env_len e v he
         simp only [hv']
-        cases hp : putVar π col n (.tensor [] [v]) s with
+        cases hp : putVar (π ++ rel) col n (.tensor [] [v]) s with
         | mk res s2 =>
           rw [hp] at h
           cases res with
@@ -451,9 +451,9 @@ theorem eval_second {cfg : Cfg} (hst : cfg.style ≠ .core) :
           | ok u =>
             simp only [Prod.mk.injEq, Except.ok.injEq] at h
             obtain ⟨rfl, rfl⟩ := h
-            have hpres : (lookupP (fullPath col π n) t.vars).isSome = true := hk _ (by rw [putVar_stored hp]; rfl)
+            have hpres : (lookupP (fullPath col (π ++ rel) n) t.vars).isSome = true := hk _ (by rw [putVar_stored hp]; rfl)
             have hs := putVar_samekeys (v := .tensor [] [v']) hpres
-            cases hp' : putVar π col n (.tensor [] [v']) t with
+            cases hp' : putVar (π ++ rel) col n (.tensor [] [v']) t with
             | mk res' t2 =>
               rw [hp'] at hs
               cases res' with
@@ -550,7 +550,7 @@ theorem eval_second {cfg : Cfg} (hst : cfg.style ≠ .core) :
             rcases List.mem_cons.mp he with h3 | h3
             · subst h3; exact List.mem_cons_self
             · exact List.mem_cons_of_mem _ (hl.res_sub e h3)
-    | call slot a =>
+    | call slot a w =>
       simp only [eval] at h ⊢
       rw [hl.kids_eq]
       cases hkid : l.kids[slot]? with
@@ -563,7 +563,7 @@ theorem eval_second {cfg : Cfg} (hst : cfg.style ≠ .core) :
           simp only [he] at h
           obtain ⟨av', hav'⟩ := evalE_ok_of_len (x' := x') hl.env_len a av he
           simp only [hav']
-          cases hb : eval cfg fuel k.body (π ++ [k.name]) av {} s with
+          cases hb : eval cfg fuel (bindArg w k.body) (π ++ [k.name]) av {} s with
           | mk res s2 =>
             rw [hb] at h
             cases res with
@@ -582,8 +582,8 @@ theorem eval_second {cfg : Cfg} (hst : cfg.style ≠ .core) :
                     have := finishCall_rel keyskept_step cfg (π ++ [k.name]) lk s2
                     rw [hfc] at this; exact this
                   have hk2 : KeysIn s2 t := fun q hq => hk q (kept q hq)
-                  obtain ⟨sk1, lk1⟩ := ih k.body (π ++ [k.name]) av av' {} {} lk s s2 t hf (LocalKeys.refl _) hb hk2
-                  cases hb' : eval cfg fuel k.body (π ++ [k.name]) av' {} t with
+                  obtain ⟨sk1, lk1⟩ := ih (bindArg w k.body) (π ++ [k.name]) av av' {} {} lk s s2 t hf (LocalKeys.refl _) hb hk2
+                  cases hb' : eval cfg fuel (bindArg w k.body) (π ++ [k.name]) av' {} t with
                   | mk res' t2 =>
                     rw [hb'] at sk1 lk1
                     cases res' with
@@ -592,9 +592,9 @@ theorem eval_second {cfg : Cfg} (hst : cfg.style ≠ .core) :
                       simp only
                       have hlk := lk1 lk' rfl
                       have hs2m : s2.mutable = s.mutable := by
-                        have := (eval_frame cfg fuel k.body (π ++ [k.name]) av {} s).mutable_eq; rw [hb] at this; exact this
+                        have := (eval_frame cfg fuel (bindArg w k.body) (π ++ [k.name]) av {} s).mutable_eq; rw [hb] at this; exact this
                       have ht2m : t2.mutable = t.mutable := by
-                        have := (eval_frame cfg fuel k.body (π ++ [k.name]) av' {} t).mutable_eq; rw [hb'] at this; exact this
+                        have := (eval_frame cfg fuel (bindArg w k.body) (π ++ [k.name]) av' {} t).mutable_eq; rw [hb'] at this; exact this
                       obtain ⟨sk2, lk2⟩ := finishCall_keys (hf.step hs2m ht2m) hlk hfc (hk.of_same sk1)
                       cases hf' : finishCall cfg (π ++ [k.name]) lk' t2 with
                       | mk res3 t3 =>
